@@ -227,6 +227,11 @@ func (m *Model) expectedNew(hd *wire.BlockHeader, h Hash) map[string]bool {
 	if !refused {
 		out["accepted"] = true
 	}
+	if m.TrimTip[p.Hash] && !m.Invalid[h] {
+		// the parent is the last header of a branch that invalid-marking cut back: no new branch is
+		// started (accepted without the depth rule) unless maintenance has reshaped the branches since
+		out["accepted"] = true
+	}
 	if m.MaybePruned[p.Hash] || m.MaybeDropped[p.Hash] {
 		out["unknown"] = true
 		if p == m.Genesis {
